@@ -16,7 +16,7 @@ import (
 // observed as CPU time of the worker process (getrusage around the call; not wall-clock time, and one job per process) on
 // families of documents that repeat one construct n and 4n times. Linear work gives a ratio of 4, quadratic 16, cubic 64.
 // Verdict, with wide margins: the larger document needs more than 15 CPU-seconds (it is at most a few hundred KiB), or it
-// needs more than 1.5 CPU-seconds and more than 24 times what the smaller one needs (worse than n^2.3). The smaller of two
+// needs more than 4 CPU-seconds and more than 24 times what the smaller one needs (worse than n^2.3). The smaller of two
 // measurements counts.
 type scaleFamily struct {
 	name string
@@ -51,7 +51,7 @@ func scalingFamilies() []scaleFamily {
 				}
 			}
 		})},
-		{"type-chain-below-the-limit", 90, single(func(w wf, n int) {
+		{"type-chain-below-the-limit", 85, single(func(w wf, n int) {
 			for i := 0; i < n; i++ {
 				if i+1 < n {
 					w("TYPE @t%d\n{\"a\":@t%d}\n", i, i+1)
@@ -78,7 +78,7 @@ func scalingFamilies() []scaleFamily {
 				}
 			}
 		})},
-		{"type-chain-array-below-the-limit", 90, single(func(w wf, n int) {
+		{"type-chain-array-below-the-limit", 85, single(func(w wf, n int) {
 			for i := 0; i < n; i++ {
 				if i+1 < n {
 					w("TYPE @t%d\n[@t%d]\n", i, i+1)
@@ -96,7 +96,7 @@ func scalingFamilies() []scaleFamily {
 				}
 			}
 		})},
-		{"allOf-chain-below-the-limit", 36, single(func(w wf, n int) {
+		{"allOf-chain-below-the-limit", 34, single(func(w wf, n int) {
 			for i := 0; i < n; i++ {
 				if i+1 < n {
 					w("TYPE @t%d\n{ // {allOf: \"@t%d\"}\n \"a%d\":1\n}\n", i, i+1, i)
@@ -494,7 +494,7 @@ func scalingMonitor(c *fw.Ctx, pool *proc.Pool, ops []string) {
 		switch {
 		case t[1] > 15e6:
 			c.Violate("superlinear:"+name, fmt.Sprintf("%s of %d bytes (%s repeated %d times) took %.1f CPU-seconds; a quarter of it took %.2f", what, o.bytes[1], name, 4*famN(fams, name), float64(t[1])/1e6, float64(t[0])/1e6), replayOf(jobs[name+"/1"], nil))
-		case t[1] > 1.5e6 && ratio > 24:
+		case t[1] > 4e6 && ratio > 24:
 			c.Violate("superlinear:"+name, fmt.Sprintf("%s: 4 times the input (%d -> %d bytes) took %.0f times the CPU time (%.3f s -> %.2f s)", what, o.bytes[0], o.bytes[1], ratio, float64(t[0])/1e6, float64(t[1])/1e6), replayOf(jobs[name+"/1"], nil))
 		}
 	}
